@@ -21,6 +21,8 @@ StructIAs == {<<1, ASa>>, <<2, ASb>>}
 StructIfs == {1, 2}
 GenStructPaths == PathsOver(StructIAs, StructIfs, 3)
 GenStructPathsThorough == PathsOver(StructIAs, StructIfs, 4)
+\* ACL paths: the same AS in two ISDs, the same ISD with two ASes
+GenAclPaths == PathsOver({<<1, ASa>>, <<2, ASa>>, <<2, ASb>>}, StructIfs, 3)
 GenLeavesQuick == {AnyHop, P(1, WildAS, "dec", 0, 0, 0), P(0, ASb, "hexl", 1, 0, 0),
                    P(1, ASa, "dec", 2, 1, 0), P(2, ASb, "hexl", 3, 1, 2)}
 GenLeavesThorough == GenLeavesQuick \cup {P(0, WildAS, "dec", 3, 0, 2)}
@@ -30,18 +32,29 @@ PolSeqs == {[t |-> "none"], [t |-> "plus", a |-> Hop(AnyHop)],
             Cat(Cat(Hop(P(1, WildAS, "dec", 0, 0, 0)), [t |-> "star", a |-> Hop(AnyHop)]), Hop(P(2, WildAS, "dec", 0, 0, 0))),
             Cat(Hop(AnyHop), Cat([t |-> "opt", a |-> Hop(P(0, ASb, "hexl", 1, 0, 0))], Hop(AnyHop)))}
 PolAcls == {<<>>} \cup AclsOver({P(2, ASb, "hexl", 2, 1, 0), P(1, WildAS, "dec", 0, 0, 0)}, 1)
-PolOpts == LET o == {[w |-> w, acl |-> a, seq |-> s] : w \in {0, 1}, a \in {<<>>, <<[allow |-> FALSE, p |-> P(1, ASa, "dec", 1, 0, 0)], [allow |-> TRUE, p |-> AnyHop]>>,
-                                                                          <<[allow |-> FALSE, p |-> AnyHop]>>},
-                                                       s \in {[t |-> "none"], Cat(Hop(AnyHop), Hop(AnyHop))}}
-           IN {<<>>} \cup {<<x>> : x \in o} \cup {<<x, y>> : x \in o, y \in o}
+NoSeq == [t |-> "none"]
+DenyA == <<[allow |-> FALSE, p |-> P(1, ASa, "dec", 1, 0, 0)], [allow |-> TRUE, p |-> AnyHop]>>
+DenyAll == <<[allow |-> FALSE, p |-> AnyHop]>>
+OptSet == {[w |-> w, acl |-> a, seq |-> s] : w \in {0, 1}, a \in {<<>>, DenyA, DenyAll}, s \in {NoSeq, Cat(Hop(AnyHop), Hop(AnyHop))}}
+PolOpts == {<<>>} \cup {<<x>> : x \in OptSet} \cup {<<x, y>> : x \in OptSet, y \in OptSet}
 PolScns == {[fam |-> "pol", scn |-> [acl |-> a, seq |-> s, opts |-> o]] : a \in PolAcls, s \in PolSeqs, o \in PolOpts}
 
-DirectedQuick == ProbeScns(GenProbePredsQuick) \cup AclScns(1) \cup {d \in PolScns : Len(d.scn.opts) <= 1}
+\* quick: fewer ACLs, but option pairs of equal and of different weight
+OptSetQuick == {[w |-> 0, acl |-> <<>>, seq |-> Cat(Hop(AnyHop), Hop(AnyHop))], [w |-> 1, acl |-> DenyA, seq |-> NoSeq],
+                [w |-> 1, acl |-> <<>>, seq |-> Cat(Hop(AnyHop), Hop(AnyHop))], [w |-> 0, acl |-> DenyAll, seq |-> NoSeq],
+                [w |-> 0, acl |-> DenyA, seq |-> NoSeq]}
+PolOptsQuick == {<<>>} \cup {<<x>> : x \in OptSetQuick} \cup {<<x, y>> : x \in OptSetQuick, y \in OptSetQuick}
+PolAclsQuick == {<<>>, <<[allow |-> FALSE, p |-> P(2, ASb, "hexl", 2, 1, 0)], [allow |-> TRUE, p |-> AnyHop]>>,
+                 <<[allow |-> TRUE, p |-> P(1, WildAS, "dec", 0, 0, 0)], [allow |-> FALSE, p |-> AnyHop]>>}
+PolScnsQuick == {[fam |-> "pol", scn |-> [acl |-> a, seq |-> s, opts |-> o]] : a \in PolAclsQuick, s \in PolSeqs, o \in PolOptsQuick}
+
+DirectedQuick == ProbeScns(GenProbePredsQuick) \cup AclScns(1) \cup PolScnsQuick
 DirectedThorough == ProbeScns(GenProbePredsThorough) \cup AclScns(2) \cup PolScns
 
 \* path sets for the driver, printed once at start-up by the Gen configs
 PathSets(u) == /\ PrintT(<<"PATHS", "pred", ToJson(SetToSeq(GenProbePaths))>>)
             /\ PrintT(<<"PATHS", "struct", ToJson(SetToSeq(GenStructPaths))>>)
+            /\ PrintT(<<"PATHS", "acl", ToJson(SetToSeq(GenAclPaths))>>)
             /\ PrintT(<<"PATHS", "struct4", ToJson(SetToSeq(GenStructPathsThorough))>>)
 GenInit == Init /\ PathSets(0)
 =============================================================================
